@@ -1,1 +1,989 @@
-fn main() { eprintln!("engine not built yet"); std::process::exit(2); }
+//! C03 / C16 — the real treap explored with priorities CHOSEN by the explorer.
+//!
+//! State: up to 3 live treaps over at most N nodes, one vector model per treap.  `priority` is a public
+//! field and the code only compares priorities, so creating a node at every rank relative to the live
+//! ones (strictly between, or tied with, existing levels) realises every weak ordering of priorities,
+//! i.e. every tree shape.  After each action priorities are re-spaced to their ranks (order preserved).
+//!
+//! C03 judges the sequence semantics (split/merge/insert/remove/first/last/collect/size, aggregates,
+//! lazy modifications applied exactly once and in order).  C16 judges heap order in every state of the
+//! same exploration, plus a menu of long adversarial histories through the real priority generator for
+//! the height bound.
+
+use rlib_treap::{Treap, TreapItem, TreapItemSized, TreapNode};
+use serde::{Deserialize, Serialize};
+use std::sync::atomic::{AtomicU64, Ordering};
+use vcore::*;
+
+// ---------------------------------------------------------------------------------------------
+// item: value in Z3, subtree size, aggregate = word of the subtree's values, pending affine map
+
+#[derive(Clone, Debug, PartialEq)]
+struct It {
+    id: u8,
+    val: u8,
+    size: u32,
+    agg: Vec<u8>,
+    /// pending x -> a*x + b (mod 3); identity (1, 0)
+    tag: (u8, u8),
+}
+
+const IDT: (u8, u8) = (1, 0);
+const MODS: [(u8, u8); 2] = [(1, 1), (0, 0)]; // add 1, assign 0 — they do not commute
+
+impl It {
+    fn new(id: u8, val: u8) -> It {
+        It { id, val, size: 1, agg: vec![val], tag: IDT }
+    }
+    fn apply(&mut self, m: (u8, u8)) {
+        self.val = (m.0 * self.val + m.1) % 3;
+        for x in self.agg.iter_mut() {
+            *x = (m.0 * *x + m.1) % 3;
+        }
+        // a node without children has nobody to forward the modification to
+        if self.size >= 2 {
+            self.tag = ((m.0 * self.tag.0) % 3, (m.0 * self.tag.1 + m.1) % 3);
+        }
+    }
+}
+
+impl TreapItem for It {
+    fn update(&mut self, l: Option<&Self>, r: Option<&Self>) {
+        self.size = 1 + l.map_or(0, |x| x.size) + r.map_or(0, |x| x.size);
+        let mut agg = l.map_or(vec![], |x| x.agg.clone());
+        agg.push(self.val);
+        if let Some(r) = r {
+            agg.extend_from_slice(&r.agg);
+        }
+        agg.truncate(32);
+        self.agg = agg;
+    }
+    fn push(&mut self, l: Option<&mut Self>, r: Option<&mut Self>) {
+        if self.tag != IDT {
+            let t = self.tag;
+            if let Some(l) = l {
+                l.apply(t);
+            }
+            if let Some(r) = r {
+                r.apply(t);
+            }
+            self.tag = IDT;
+        }
+    }
+}
+
+impl TreapItemSized for It {
+    fn size(&self) -> usize {
+        self.size as usize
+    }
+}
+
+// ---------------------------------------------------------------------------------------------
+
+type Node = TreapNode<It>;
+
+fn copy_node(n: &Option<Box<Node>>) -> Option<Box<Node>> {
+    n.as_ref().map(|b| Box::new(Node { item: b.item.clone(), priority: b.priority, left: copy_node(&b.left), right: copy_node(&b.right) }))
+}
+
+fn copy_treap(t: &Treap<It>) -> Treap<It> {
+    Treap { root: copy_node(&t.root) }
+}
+
+fn single(id: u8, val: u8, prio: u32) -> Treap<It> {
+    // struct literal: no priority is drawn from the crate's generator
+    Treap { root: Some(Box::new(Node { item: It::new(id, val), priority: prio, left: None, right: None })) }
+}
+
+fn for_each_node(n: &Option<Box<Node>>, f: &mut dyn FnMut(&Node)) {
+    if let Some(b) = n {
+        f(b);
+        for_each_node(&b.left, f);
+        for_each_node(&b.right, f);
+    }
+}
+
+fn for_each_node_mut(n: &mut Option<Box<Node>>, f: &mut dyn FnMut(&mut Node)) {
+    if let Some(b) = n {
+        f(b);
+        for_each_node_mut(&mut b.left, f);
+        for_each_node_mut(&mut b.right, f);
+    }
+}
+
+fn count(n: &Option<Box<Node>>) -> u32 {
+    n.as_ref().map_or(0, |b| 1 + count(&b.left) + count(&b.right))
+}
+
+#[derive(Clone, Debug, Serialize, Deserialize)]
+enum Act {
+    Start,
+    /// create a single-node treap; pc = priority choice in 1..=2L+1 (odd: strictly between levels, even: tie)
+    New(u8, u8),
+    Merge(u8, u8),
+    SplitAt(u8, u8),
+    SplitBy(u8, u8),
+    InsertAt(u8, u8, u8, u8),
+    RemoveAt(u8, u8),
+    Apply(u8, u8),
+    First(u8),
+    Last(u8),
+    Collect(u8),
+    Size(u8),
+    Root(u8),
+    MergeEmpty(u8, bool),
+}
+
+struct St {
+    slots: Vec<Treap<It>>,
+    models: Vec<Vec<(u8, u8)>>,
+}
+
+impl Clone for St {
+    fn clone(&self) -> Self {
+        St { slots: self.slots.iter().map(copy_treap).collect(), models: self.models.clone() }
+    }
+}
+
+#[derive(Clone, Copy, PartialEq)]
+enum Mode {
+    C03,
+    C16,
+}
+
+struct Sys {
+    max_nodes: usize,
+    max_slots: usize,
+    mode: Mode,
+    /// Some(p0): the priority a fresh thread's first node creation draws (controlled insert_at)
+    p0: Option<u32>,
+    vals: u8,
+}
+
+static UNCONTROLLED_DRAWS: AtomicU64 = AtomicU64::new(0);
+static CONTROLLED_DRAWS: AtomicU64 = AtomicU64::new(0);
+
+// The crate's priority generator is per-thread and deterministic, so the k-th node creation of ANY
+// thread draws the same value as the k-th creation of a dedicated "oracle" thread that does nothing
+// else.  Each harness thread counts its own creations; before an `insert_at` it looks up the value that
+// call is going to draw and re-spaces the live priorities around it, which puts the new node at the
+// rank the explorer chose.  If the observed priority differs (a generator shared between threads), the
+// draw is counted as uncontrolled and the state reached is whatever rank came out.
+struct Oracle {
+    seq: std::sync::RwLock<Vec<u32>>,
+    req: std::sync::Mutex<(std::sync::mpsc::Sender<usize>, std::sync::mpsc::Receiver<Vec<u32>>)>,
+}
+
+static ORACLE: std::sync::OnceLock<Oracle> = std::sync::OnceLock::new();
+
+fn oracle() -> &'static Oracle {
+    ORACLE.get_or_init(|| {
+        let (tx_req, rx_req) = std::sync::mpsc::channel::<usize>();
+        let (tx_rep, rx_rep) = std::sync::mpsc::channel::<Vec<u32>>();
+        std::thread::spawn(move || {
+            // this thread creates nodes and nothing else
+            while let Ok(n) = rx_req.recv() {
+                let v: Vec<u32> = (0..n).map(|_| Node::new(It::new(0, 0)).priority).collect();
+                if tx_rep.send(v).is_err() {
+                    break;
+                }
+            }
+        });
+        Oracle { seq: std::sync::RwLock::new(vec![]), req: std::sync::Mutex::new((tx_req, rx_rep)) }
+    })
+}
+
+/// value of the k-th (0-based) node creation of a thread
+fn oracle_get(k: usize) -> u32 {
+    let o = oracle();
+    if let Some(v) = o.seq.read().unwrap().get(k) {
+        return *v;
+    }
+    let ch = o.req.lock().unwrap();
+    let have = o.seq.read().unwrap().len();
+    if k >= have {
+        let want = (k + 1 - have).max(1 << 20);
+        ch.0.send(want).unwrap();
+        let more = ch.1.recv().unwrap();
+        o.seq.write().unwrap().extend(more);
+    }
+    let v = o.seq.read().unwrap()[k];
+    v
+}
+
+thread_local! {
+    /// node creations this harness thread has caused so far
+    static MY_DRAWS: std::cell::Cell<usize> = std::cell::Cell::new(0);
+}
+
+fn note_draws(n: usize) {
+    MY_DRAWS.with(|c| c.set(c.get() + n));
+}
+
+/// first priorities drawn by a thread that has never created a node
+fn fresh_thread_draws(n: usize) -> Vec<u32> {
+    std::thread::spawn(move || (0..n).map(|_| Node::new(It::new(0, 0)).priority).collect()).join().unwrap()
+}
+
+impl Sys {
+    fn levels(s: &St) -> Vec<u32> {
+        let mut ps = vec![];
+        for t in &s.slots {
+            for_each_node(&t.root, &mut |n| ps.push(n.priority));
+        }
+        ps.sort();
+        ps.dedup();
+        ps
+    }
+
+    /// re-space priorities to 2*rank (2, 4, 6, …), order and ties preserved
+    fn normalise(s: &mut St) {
+        let lv = Self::levels(s);
+        for t in s.slots.iter_mut() {
+            for_each_node_mut(&mut t.root, &mut |n| {
+                n.priority = 2 * (lv.binary_search(&n.priority).unwrap() as u32 + 1);
+            });
+        }
+    }
+
+    fn total(s: &St) -> usize {
+        s.models.iter().map(|m| m.len()).sum()
+    }
+
+    fn fresh_id(s: &St) -> u8 {
+        (0u8..).find(|i| !s.models.iter().any(|m| m.iter().any(|e| e.0 == *i))).unwrap()
+    }
+
+    fn drop_empty(s: &mut St) {
+        let mut i = 0;
+        while i < s.slots.len() {
+            if s.models[i].is_empty() {
+                s.slots.remove(i);
+                s.models.remove(i);
+            } else {
+                i += 1;
+            }
+        }
+    }
+
+    fn seq_of(t: &Treap<It>) -> Vec<(u8, u8)> {
+        let mut c = copy_treap(t);
+        c.collect().iter().map(|x| (x.id, x.val)).collect()
+    }
+
+    fn check_slot(&self, t: &Treap<It>, model: &[(u8, u8)]) -> Result<(), String> {
+        let got = Self::seq_of(t);
+        if got != model {
+            return Err(format!("collect() would return (id,value) {:?}, the vector model holds {:?}", got, model));
+        }
+        if t.size() != model.len() {
+            return Err(format!("size() is {}, the vector model has {} elements", t.size(), model.len()));
+        }
+        if let Some(r) = t.root() {
+            let vals: Vec<u8> = model.iter().map(|e| e.1).collect();
+            if r.agg != vals {
+                return Err(format!("root aggregate is {:?}, the fold of the sequence is {:?}", r.agg, vals));
+            }
+        } else if !model.is_empty() {
+            return Err("treap is empty but the model is not".into());
+        }
+        // every subtree root: cached size = node count, aggregate = that subtree's own sequence
+        let mut err = None;
+        for_each_node(&t.root, &mut |n| {
+            if err.is_some() {
+                return;
+            }
+            let sub = Some(Box::new(Node { item: n.item.clone(), priority: n.priority, left: copy_node(&n.left), right: copy_node(&n.right) }));
+            let cnt = count(&sub);
+            if n.item.size != cnt {
+                err = Some(format!("node id {} caches size {} but its subtree has {} nodes", n.item.id, n.item.size, cnt));
+                return;
+            }
+            let mut st = Treap { root: sub };
+            let seq: Vec<u8> = st.collect().iter().map(|x| x.val).collect();
+            if seq != n.item.agg {
+                err = Some(format!("node id {} keeps aggregate {:?} but its subtree holds {:?}", n.item.id, n.item.agg, seq));
+            }
+        });
+        err.map_or(Ok(()), Err)
+    }
+
+    fn check_heap(t: &Treap<It>) -> Result<(), String> {
+        let (mut up, mut down) = (0, 0);
+        let mut bad = String::new();
+        for_each_node(&t.root, &mut |n| {
+            for c in [&n.left, &n.right].into_iter().flatten() {
+                if n.priority < c.priority {
+                    up += 1;
+                } else if n.priority > c.priority {
+                    down += 1;
+                    bad = format!("parent id {} (priority rank {}) above child id {} (rank {})", n.item.id, n.priority, c.item.id, c.priority);
+                }
+            }
+        });
+        if up > 0 && down > 0 {
+            return Err(format!("priorities are not heap-ordered in one direction: {} edges increase downwards, {} decrease ({})", up, down, bad));
+        }
+        Ok(())
+    }
+}
+
+fn fp<T: std::fmt::Debug>(x: &T) -> u64 {
+    fnv(format!("{:?}", x).as_bytes())
+}
+
+impl System for Sys {
+    type State = St;
+    type Action = Act;
+
+    fn inits(&self) -> Vec<Act> {
+        vec![Act::Start]
+    }
+
+    fn init(&self, _a: &Act) -> Result<St, String> {
+        Ok(St { slots: vec![], models: vec![] })
+    }
+
+    fn actions(&self, s: &St) -> Vec<Act> {
+        let mut v = vec![];
+        let k = s.slots.len() as u8;
+        let total = Self::total(s);
+        let nlev = Self::levels(s).len() as u8;
+        if total < self.max_nodes && s.slots.len() < self.max_slots {
+            for pc in 1..=2 * nlev + 1 {
+                for val in 0..self.vals {
+                    v.push(Act::New(pc, val));
+                }
+            }
+        }
+        for i in 0..k {
+            for j in 0..k {
+                if i != j {
+                    v.push(Act::Merge(i, j));
+                }
+            }
+        }
+        for i in 0..k {
+            let len = s.models[i as usize].len() as u8;
+            for pos in 0..=len {
+                let needs_slot = pos != 0 && pos != len;
+                if !needs_slot || s.slots.len() < self.max_slots {
+                    v.push(Act::SplitAt(i, pos));
+                    v.push(Act::SplitBy(i, pos));
+                }
+            }
+            if total < self.max_nodes {
+                let pcs: Vec<u8> = if self.p0.is_some() { (1..=2 * nlev + 1).collect() } else { vec![2 * nlev + 1] };
+                for pos in 0..=len {
+                    for &pc in &pcs {
+                        for val in 0..self.vals {
+                            v.push(Act::InsertAt(i, pos, pc, val));
+                        }
+                    }
+                }
+            }
+            for pos in 0..len {
+                v.push(Act::RemoveAt(i, pos));
+            }
+            for m in 0..MODS.len() as u8 {
+                v.push(Act::Apply(i, m));
+            }
+            v.push(Act::First(i));
+            v.push(Act::Last(i));
+            v.push(Act::Collect(i));
+            v.push(Act::Size(i));
+            v.push(Act::Root(i));
+            v.push(Act::MergeEmpty(i, false));
+            v.push(Act::MergeEmpty(i, true));
+        }
+        v
+    }
+
+    fn step(&self, s: &mut St, a: &Act) -> Result<u64, String> {
+        let judge = self.mode == Mode::C03;
+        macro_rules! expect {
+            ($cond:expr, $($msg:tt)*) => {
+                if judge && !($cond) {
+                    return Err(format!($($msg)*));
+                }
+            };
+        }
+        let out;
+        match *a {
+            Act::Start => return Err("constructor inside a history".into()),
+            Act::New(pc, val) => {
+                let id = Self::fresh_id(s);
+                // existing levels are 2,4,…: pc itself is the new node's priority
+                s.slots.push(single(id, val, pc as u32));
+                s.models.push(vec![(id, val)]);
+                out = 0;
+            }
+            Act::Merge(i, j) => {
+                let (i, j) = (i as usize, j as usize);
+                let l = std::mem::replace(&mut s.slots[i], Treap::new());
+                let r = std::mem::replace(&mut s.slots[j], Treap::new());
+                s.slots[i] = Treap::merge(l, r);
+                let mj = std::mem::take(&mut s.models[j]);
+                s.models[i].extend(mj);
+                out = 0;
+            }
+            Act::SplitAt(i, pos) | Act::SplitBy(i, pos) => {
+                let (i, pos) = (i as usize, pos as usize);
+                let t = std::mem::replace(&mut s.slots[i], Treap::new());
+                let (l, r) = if matches!(a, Act::SplitAt(..)) {
+                    t.split_at(pos)
+                } else {
+                    // prefix-monotone predicate: "this element is one of the first `pos` of the sequence"
+                    let first: Vec<u8> = s.models[i][..pos].iter().map(|e| e.0).collect();
+                    t.split_by(|it| first.contains(&it.id))
+                };
+                let len = s.models[i].len();
+                expect!(l.size() == pos && r.size() == len - pos, "{:?}: parts have sizes {} and {}, expected {} and {}", a, l.size(), r.size(), pos, len - pos);
+                expect!(l.is_empty() == (pos == 0) && r.is_empty() == (pos == len), "{:?}: is_empty() of the parts is ({}, {})", a, l.is_empty(), r.is_empty());
+                let mr = s.models[i].split_off(pos);
+                s.slots[i] = l;
+                s.slots.push(r);
+                s.models.push(mr);
+                out = 0;
+            }
+            Act::InsertAt(i, pos, pc, val) => {
+                let (i, pos) = (i as usize, pos as usize);
+                let id = Self::fresh_id(s);
+                if self.p0.is_some() {
+                    // skip values too close to the ends of the u32 range to re-space around
+                    let mut exp;
+                    loop {
+                        exp = oracle_get(MY_DRAWS.with(|c| c.get()));
+                        if exp > 64 && exp < u32::MAX - 64 {
+                            break;
+                        }
+                        let _ = Node::new(It::new(0, 0));
+                        note_draws(1);
+                    }
+                    let pc = pc as i64;
+                    for t in s.slots.iter_mut() {
+                        for_each_node_mut(&mut t.root, &mut |n| {
+                            n.priority = (exp as i64 + (n.priority as i64 - pc)) as u32;
+                        });
+                    }
+                    s.slots[i].insert_at(pos, It::new(id, val));
+                    note_draws(1);
+                    let mut drawn = None;
+                    for_each_node(&s.slots[i].root, &mut |n| {
+                        if n.item.id == id {
+                            drawn = Some(n.priority);
+                        }
+                    });
+                    if drawn == Some(exp) {
+                        CONTROLLED_DRAWS.fetch_add(1, Ordering::Relaxed);
+                    } else {
+                        UNCONTROLLED_DRAWS.fetch_add(1, Ordering::Relaxed);
+                    }
+                } else {
+                    s.slots[i].insert_at(pos, It::new(id, val));
+                    note_draws(1);
+                    UNCONTROLLED_DRAWS.fetch_add(1, Ordering::Relaxed);
+                }
+                s.models[i].insert(pos, (id, val));
+                out = 0;
+            }
+            Act::RemoveAt(i, pos) => {
+                let (i, pos) = (i as usize, pos as usize);
+                let it = s.slots[i].remove_at(pos);
+                let e = s.models[i].remove(pos);
+                expect!((it.id, it.val) == e, "remove_at({pos}) returned (id,value) ({},{}), the vector holds {:?}", it.id, it.val, e);
+                expect!(it.size == 1 && it.agg == vec![it.val], "remove_at({pos}) returned an item with size {} and aggregate {:?}", it.size, it.agg);
+                out = fp(&(it.id, it.val));
+            }
+            Act::Apply(i, m) => {
+                let i = i as usize;
+                let md = MODS[m as usize];
+                if let Some(r) = s.slots[i].root_mut() {
+                    r.apply(md);
+                }
+                for e in s.models[i].iter_mut() {
+                    e.1 = (md.0 * e.1 + md.1) % 3;
+                }
+                out = 0;
+            }
+            Act::First(i) | Act::Last(i) => {
+                let i = i as usize;
+                let first = matches!(a, Act::First(_));
+                let got = if first { s.slots[i].first() } else { s.slots[i].last() }.map(|x| (x.id, x.val));
+                let exp = if first { s.models[i].first() } else { s.models[i].last() }.copied();
+                expect!(got == exp, "{:?} returned {:?}, the vector gives {:?}", a, got, exp);
+                out = fp(&got);
+            }
+            Act::Collect(i) => {
+                let i = i as usize;
+                let got: Vec<(u8, u8)> = s.slots[i].collect().iter().map(|x| (x.id, x.val)).collect();
+                expect!(got == s.models[i], "collect() returned {:?}, the vector is {:?}", got, s.models[i]);
+                out = fp(&got);
+            }
+            Act::Size(i) => {
+                let got = s.slots[i as usize].size();
+                expect!(got == s.models[i as usize].len(), "size() returned {}, the vector has {}", got, s.models[i as usize].len());
+                out = got as u64;
+            }
+            Act::Root(i) => {
+                let got = s.slots[i as usize].root().map(|r| r.agg.clone());
+                let exp: Vec<u8> = s.models[i as usize].iter().map(|e| e.1).collect();
+                expect!(got.as_ref() == Some(&exp), "root() aggregate {:?}, fold of the vector {:?}", got, exp);
+                out = fp(&got);
+            }
+            Act::MergeEmpty(i, left) => {
+                let i = i as usize;
+                let t = std::mem::replace(&mut s.slots[i], Treap::new());
+                s.slots[i] = if left { Treap::merge(Treap::new(), t) } else { Treap::merge(t, Treap::new()) };
+                out = 0;
+            }
+        }
+        Self::drop_empty(s);
+        Self::normalise(s);
+        Ok(out)
+    }
+
+    fn invariant(&self, s: &St) -> Result<(), String> {
+        for (i, t) in s.slots.iter().enumerate() {
+            match self.mode {
+                Mode::C03 => self.check_slot(t, &s.models[i]).map_err(|m| format!("treap #{i}: {m}"))?,
+                Mode::C16 => Self::check_heap(t).map_err(|m| format!("treap #{i}: {m}"))?,
+            }
+        }
+        Ok(())
+    }
+
+    fn canon(&self, s: &St) -> Vec<u8> {
+        fn enc(n: &Option<Box<Node>>, out: &mut Vec<u8>) {
+            match n {
+                None => out.push(0xfe),
+                Some(b) => {
+                    out.push(b.priority as u8);
+                    out.push(b.item.val);
+                    out.push(b.item.size as u8);
+                    out.push(b.item.tag.0 * 3 + b.item.tag.1);
+                    out.push(b.item.agg.len() as u8);
+                    out.extend_from_slice(&b.item.agg);
+                    enc(&b.left, out);
+                    enc(&b.right, out);
+                }
+            }
+        }
+        let mut parts: Vec<Vec<u8>> = s
+            .slots
+            .iter()
+            .zip(&s.models)
+            .map(|(t, m)| {
+                let mut o = vec![];
+                enc(&t.root, &mut o);
+                o.push(0xfd);
+                // ids are positions: only their consistency matters (checked by the invariant); the values do
+                o.extend(m.iter().map(|e| e.1));
+                o
+            })
+            .collect();
+        parts.sort();
+        let mut k = vec![];
+        for p in parts {
+            k.extend(p);
+            k.push(0xff);
+        }
+        k
+    }
+
+    fn kind(&self, a: &Act) -> &'static str {
+        match a {
+            Act::Start => "start",
+            Act::New(..) => "new",
+            Act::Merge(..) => "merge",
+            Act::SplitAt(..) => "split_at",
+            Act::SplitBy(..) => "split_by",
+            Act::InsertAt(..) => "insert_at",
+            Act::RemoveAt(..) => "remove_at",
+            Act::Apply(..) => "apply",
+            Act::First(..) => "first",
+            Act::Last(..) => "last",
+            Act::Collect(..) => "collect",
+            Act::Size(..) => "size",
+            Act::Root(..) => "root",
+            Act::MergeEmpty(..) => "merge_with_empty",
+        }
+    }
+}
+
+// ---------------------------------------------------------------------------------------------
+// C16 (b): long adversarial histories through the REAL priority generator
+
+#[derive(Default)]
+struct Sz {
+    size: u32,
+}
+impl TreapItem for Sz {
+    fn update(&mut self, l: Option<&Self>, r: Option<&Self>) {
+        self.size = 1 + l.map_or(0, |x| x.size) + r.map_or(0, |x| x.size);
+    }
+}
+impl TreapItemSized for Sz {
+    fn size(&self) -> usize {
+        self.size as usize
+    }
+}
+
+fn height(t: &Treap<Sz>) -> usize {
+    let mut best = 0;
+    let mut stack: Vec<(&TreapNode<Sz>, usize)> = vec![];
+    if let Some(r) = &t.root {
+        stack.push((r, 1));
+    }
+    while let Some((n, d)) = stack.pop() {
+        best = best.max(d);
+        if let Some(l) = &n.left {
+            stack.push((l, d + 1));
+        }
+        if let Some(r) = &n.right {
+            stack.push((r, d + 1));
+        }
+    }
+    best
+}
+
+fn heap_ok(t: &Treap<Sz>) -> bool {
+    let (mut up, mut down) = (false, false);
+    let mut stack: Vec<&TreapNode<Sz>> = vec![];
+    if let Some(r) = &t.root {
+        stack.push(r);
+    }
+    while let Some(n) = stack.pop() {
+        for c in [&n.left, &n.right].into_iter().flatten() {
+            if n.priority < c.priority {
+                up = true;
+            }
+            if n.priority > c.priority {
+                down = true;
+            }
+            stack.push(c);
+        }
+    }
+    !(up && down)
+}
+
+fn bound(n: usize) -> f64 {
+    5.0 * ((n + 1) as f64).log2() + 20.0
+}
+
+const MENU: &[&str] = &["append", "push_front", "insert_middle", "rotate", "append_remove_alternate", "two_treaps_then_merge", "from_item_merge", "insert_one_third"];
+
+/// Runs one history to `n` elements after `offset` prior node creations (stream offset), probing the
+/// height at every doubling.  Returns Err(description) on the first violation.
+fn menu_history(name: &str, n: usize, offset: usize) -> Result<(usize, usize), String> {
+    for _ in 0..offset {
+        let _ = TreapNode::new(Sz { size: 1 });
+    }
+    let mut t: Treap<Sz> = Treap::new();
+    let mut other: Treap<Sz> = Treap::new();
+    let mut probe = 64usize;
+    let mut maxh = 0usize;
+    let mut steps = 0usize;
+    let mut check = |t: &Treap<Sz>, force: bool, steps: usize| -> Result<(), String> {
+        let sz = t.size();
+        if sz >= probe || force {
+            while probe <= sz {
+                probe *= 2;
+            }
+            let h = height(t);
+            maxh = maxh.max(h);
+            if (h as f64) > bound(sz) {
+                return Err(format!("history {name} (offset {offset}): height {h} at {sz} elements after {steps} operations exceeds 5*log2(n+1)+20 = {:.1}", bound(sz)));
+            }
+            if !heap_ok(t) {
+                return Err(format!("history {name} (offset {offset}): priorities not heap-ordered in one direction at {sz} elements"));
+            }
+        }
+        Ok(())
+    };
+    match name {
+        "append" => {
+            for _ in 0..n {
+                let s = t.size();
+                t.insert_at(s, Sz { size: 1 });
+                steps += 1;
+                check(&t, false, steps)?;
+            }
+        }
+        "push_front" => {
+            for _ in 0..n {
+                t.insert_at(0, Sz { size: 1 });
+                steps += 1;
+                check(&t, false, steps)?;
+            }
+        }
+        "insert_middle" => {
+            for _ in 0..n {
+                let s = t.size();
+                t.insert_at(s / 2, Sz { size: 1 });
+                steps += 1;
+                check(&t, false, steps)?;
+            }
+        }
+        "insert_one_third" => {
+            for _ in 0..n {
+                let s = t.size();
+                t.insert_at(s / 3, Sz { size: 1 });
+                steps += 1;
+                check(&t, false, steps)?;
+            }
+        }
+        "rotate" => {
+            // append, and every 7th step split at a third and swap the parts
+            for i in 0..n {
+                let s = t.size();
+                t.insert_at(s, Sz { size: 1 });
+                if i % 7 == 6 {
+                    let s = t.size();
+                    let (a, b) = std::mem::take(&mut t).split_at(s / 3);
+                    t = Treap::merge(b, a);
+                }
+                steps += 1;
+                check(&t, false, steps)?;
+            }
+        }
+        "append_remove_alternate" => {
+            // append two, remove the one before last: the tree grows by one per round
+            for _ in 0..n {
+                let s = t.size();
+                t.insert_at(s, Sz { size: 1 });
+                let s = t.size();
+                t.insert_at(s, Sz { size: 1 });
+                let s = t.size();
+                let _ = t.remove_at(s - 2);
+                steps += 3;
+                check(&t, false, steps)?;
+            }
+        }
+        "two_treaps_then_merge" => {
+            for i in 0..n {
+                if i % 2 == 0 {
+                    let s = t.size();
+                    t.insert_at(s, Sz { size: 1 });
+                } else {
+                    other.insert_at(0, Sz { size: 1 });
+                }
+                steps += 1;
+                check(&t, false, steps)?;
+            }
+            check(&other, true, steps)?;
+            t = Treap::merge(t, std::mem::take(&mut other));
+        }
+        "from_item_merge" => {
+            for _ in 0..n {
+                t = Treap::merge(t, Treap::from_item(Sz { size: 1 }));
+                steps += 1;
+                check(&t, false, steps)?;
+            }
+        }
+        _ => unreachable!(),
+    }
+    check(&t, true, steps)?;
+    if t.size() != n {
+        return Err(format!("history {name}: size() is {} after building {} elements", t.size(), n));
+    }
+    Ok((maxh, steps))
+}
+
+/// Each (history, offset) runs in its own thread: the stack is generous (a degenerate tree is caught by
+/// the probes long before recursion depth matters) and, with a per-thread generator, the stream offset
+/// is exact.
+fn menu_case(name: &'static str, n: usize, offset: usize) -> Result<(usize, usize), String> {
+    std::thread::Builder::new()
+        .stack_size(256 << 20)
+        .spawn(move || menu_history(name, n, offset))
+        .unwrap()
+        .join()
+        .unwrap_or_else(|_| Err(format!("history {name} (offset {offset}) panicked")))
+}
+
+// ---------------------------------------------------------------------------------------------
+
+fn sys_for(mode: Mode, n: usize, p0: Option<u32>) -> Sys {
+    Sys { max_nodes: n, max_slots: 3, mode, p0, vals: 2 }
+}
+
+/// Some(_) iff the generator is per-thread and deterministic (two fresh threads and the oracle thread
+/// draw the same values), i.e. insert_at's priority can be controlled.
+fn measure_p0() -> Option<u32> {
+    let a = fresh_thread_draws(4);
+    let b = fresh_thread_draws(4);
+    let o: Vec<u32> = (0..4).map(oracle_get).collect();
+    if a == b && a == o {
+        Some(a[0])
+    } else {
+        None
+    }
+}
+
+/// direct checks on the public constructors that the exploration does not call
+fn check_constructors() -> Result<(), String> {
+    let mut e: Treap<It> = Treap::new();
+    if !e.is_empty() || e.size() != 0 || e.first().is_some() || e.last().is_some() || !e.collect().is_empty() || e.root().is_some() {
+        return Err("Treap::new() is not an empty sequence".into());
+    }
+    let (a, b) = Treap::<It>::new().split_at(0);
+    if !a.is_empty() || !b.is_empty() {
+        return Err("split_at(0) of an empty treap returned a non-empty part".into());
+    }
+    let mut d: Treap<Sz> = Treap::default();
+    if !d.is_empty() || !d.collect().is_empty() {
+        return Err("Treap::default() is not empty".into());
+    }
+    let mut t = Treap::from_item(It::new(7, 2));
+    note_draws(4);
+    let got: Vec<(u8, u8)> = t.collect().iter().map(|x| (x.id, x.val)).collect();
+    if got != vec![(7, 2)] || t.size() != 1 || t.is_empty() {
+        return Err(format!("Treap::from_item gives {:?} size {}", got, t.size()));
+    }
+    let mut t: Treap<It> = Treap::new();
+    t.insert_at(0, It::new(1, 1));
+    t.insert_at(0, It::new(0, 0));
+    t.insert_at(2, It::new(2, 2));
+    let got: Vec<u8> = t.collect().iter().map(|x| x.id).collect();
+    if got != vec![0, 1, 2] {
+        return Err(format!("insert_at on an empty treap: {:?}", got));
+    }
+    Ok(())
+}
+
+fn main() {
+    let args = Args::parse();
+    quiet_panics();
+    let mode = match args.prop.as_str() {
+        "C03" => Mode::C03,
+        "C16" => Mode::C16,
+        _ => {
+            eprintln!("eng_treap serves C03 and C16");
+            std::process::exit(2)
+        }
+    };
+    let confirm = move |v: &Value| -> Result<(), String> {
+        match v["kind"].as_str().unwrap_or("") {
+            "menu" => menu_case(MENU.iter().find(|m| **m == v["name"].as_str().unwrap()).unwrap(), v["n"].as_u64().unwrap() as usize, v["offset"].as_u64().unwrap() as usize).map(|_| ()),
+            "constructors" => check_constructors(),
+            _ => {
+                let p0 = if v["controlled"].as_bool().unwrap_or(false) { measure_p0() } else { None };
+                let hist: Vec<Value> = v["history"].as_array().unwrap().clone();
+                replay_history(&sys_for(mode, v["n"].as_u64().unwrap() as usize, p0), &hist)
+            }
+        }
+    };
+    if args.replay.is_some() {
+        Run::replay_main(&args, &confirm);
+    }
+    let mut run = Run::new(&args, "treap", "model_checking");
+    let quick = args.tier == Tier::Quick;
+    let p0 = measure_p0();
+    run.cov("insert_at_priority_controlled", p0.is_some());
+
+    // (nodes, depth bound)
+    let plan: Vec<(usize, Option<usize>)> = match (mode, quick) {
+        (Mode::C03, true) => vec![(2, None), (3, None), (4, None), (5, Some(6))],
+        (Mode::C03, false) => vec![(2, None), (3, None), (4, None), (5, None), (6, Some(6))],
+        (Mode::C16, true) => vec![(2, None), (3, None), (4, None), (5, Some(5))],
+        (Mode::C16, false) => vec![(2, None), (3, None), (4, None), (5, Some(8)), (6, Some(6))],
+    };
+    let mut states = 0u64;
+    let mut transitions = 0u64;
+    let mut outcomes = 0u64;
+    let mut table = vec![];
+    let mut exhaustive = true;
+    for (n, depth) in plan {
+        let sys = sys_for(mode, n, p0);
+        let cfg = ExploreCfg { max_depth: depth, max_states: 25_000_000, wall_cap_s: if quick { 40.0 } else { 1200.0 } };
+        let t0 = std::time::Instant::now();
+        let r = explore(&sys, &cfg);
+        states += r.states;
+        transitions += r.transitions;
+        outcomes += r.distinct_outcomes;
+        if depth.is_none() && !r.closed {
+            exhaustive = false;
+        }
+        table.push(json!({"max_nodes": n, "depth_bound": depth, "wall_s": (t0.elapsed().as_secs_f64() * 100.0).round() / 100.0, "result": r.to_json()}));
+        if let Some(f) = &r.violation {
+            let sig = format!("explore:N={}:{}", n, serde_json::to_string(&f.history).unwrap());
+            run.violation(Violation::new(sig, format!("[N={n}] {}", f.message), json!({"kind": "history", "n": n, "controlled": p0.is_some(), "history": f.history})));
+            break;
+        }
+        for h in r.sample_histories.iter().take(1) {
+            run.sample(json!({"max_nodes": n, "history": h}));
+        }
+    }
+    if mode == Mode::C03 {
+        if let Err(m) = check_constructors() {
+            run.violation(Violation::new("constructors", m, json!({"kind": "constructors"})));
+        }
+    }
+    run.cov("states", states);
+    run.cov("transitions", transitions);
+    run.cov("traces_validated_against_impl", transitions);
+    run.cov("distinct_outcomes", outcomes);
+    run.cov("parts", Value::Array(table));
+    run.cov("insert_at_draws_controlled", CONTROLLED_DRAWS.load(Ordering::Relaxed));
+    run.cov("insert_at_draws_uncontrolled", UNCONTROLLED_DRAWS.load(Ordering::Relaxed));
+    run.cov("rule", "BFS over states of up to 3 live treaps with at most N nodes (values in {0,1}, lazy add-1 / assign-0 tags over Z3), every action in every reached state: New at every priority rank (strictly between or tied with live levels), Merge of every ordered pair, split_at / split_by at every position, insert_at at every position and priority rank (the call runs on a fresh thread whose first draw is known, live priorities are re-spaced around it), remove_at, Apply of each modification at the root, first/last/collect/size/root, merge with an empty treap; parts without depth_bound run to closure; state identity = pre-order (priority rank, value, size, tag, aggregate) per treap, treaps sorted");
+    run.assume("the harness item (value, size, word aggregate, affine tag) is a lawful TreapItem; a node without children does not record a pending tag (nothing can read it)");
+
+    if mode == Mode::C16 {
+        // directed long histories, real generator
+        let n = if quick { 100_000 } else { 1_000_000 };
+        let offsets: &[usize] = &[0, 1, 2, 3, 17, 1000];
+        let cases: Vec<(&'static str, usize)> = MENU.iter().flat_map(|m| offsets.iter().map(move |o| (*m, *o))).collect();
+        let results: Vec<((&'static str, usize), Result<(usize, usize), String>)> = {
+            use std::sync::Mutex;
+            let out = Mutex::new(vec![]);
+            std::thread::scope(|sc| {
+                let chunks: Vec<Vec<(&'static str, usize)>> = (0..16).map(|w| cases.iter().copied().skip(w).step_by(16).collect()).collect();
+                for ch in chunks {
+                    let out = &out;
+                    sc.spawn(move || {
+                        for (m, o) in ch {
+                            let r = menu_case(m, n, o);
+                            out.lock().unwrap().push(((m, o), r));
+                        }
+                    });
+                }
+            });
+            let mut v = out.into_inner().unwrap();
+            v.sort_by_key(|x| (MENU.iter().position(|m| *m == (x.0).0), (x.0).1));
+            v
+        };
+        let mut maxh = 0;
+        let mut ops = 0u64;
+        let mut failed_histories: Vec<&'static str> = vec![];
+        for ((m, o), r) in results {
+            match r {
+                Ok((h, steps)) => {
+                    maxh = maxh.max(h);
+                    ops += steps as u64;
+                }
+                Err(msg) => {
+                    // one report per history: its first failing stream offset
+                    if !failed_histories.contains(&m) {
+                        failed_histories.push(m);
+                        run.violation(Violation::new(format!("menu:{m}:offset={o}:n={n}"), msg, json!({"kind": "menu", "name": m, "n": n, "offset": o})));
+                    }
+                }
+            }
+        }
+        run.cov("directed_histories", (MENU.len() * offsets.len()) as u64);
+        run.cov("directed_history_elements", n as u64);
+        run.cov("directed_history_operations", ops);
+        run.cov("directed_max_height", maxh as u64);
+        run.cov("directed_height_bound", bound(n));
+        run.cov("directed_histories_note", "NOT exhaustive: a fixed menu of adversarial deterministic histories (sorted appends, front insertion, middle insertion, split-and-swap rotations, append/remove alternation, two treaps merged, from_item+merge) through the real priority generator at 6 stream offsets; height probed at every doubling against 5*log2(n+1)+20");
+        run.sample(json!({"directed_history": "append", "elements": n, "max_height_over_menu": maxh}));
+        exhaustive = false;
+    }
+    run.cov("exhaustive", exhaustive && !run.has_violations());
+    if !run.has_violations() && (states < 5000 || outcomes < 20) {
+        run.machinery_failure("exploration implausibly small");
+    }
+    run.finish(&confirm)
+}
